@@ -31,7 +31,7 @@ SUFFIXES = ["", "#", ["a"], ["0"], ["~", "/"], ["é", ""], ["m~n", "a/b", "10"],
 
 
 def plan(tier, seed):
-    specs = [{"kind": "exhaustive", "first": t} for t in ALPHABET] + [{"kind": "exhaustive", "first": None}, {"kind": "syntax"}, {"kind": "backslash"}, {"kind": "flags"}, {"kind": "magnitude"}]
+    specs = [{"kind": "exhaustive", "first": t} for t in ALPHABET] + [{"kind": "exhaustive", "first": None}, {"kind": "syntax"}, {"kind": "backslash"}, {"kind": "flags"}, {"kind": "magnitude"}, {"kind": "digit-lookalikes"}]
     for _ in range(4 if tier == "quick" else 14):
         specs.append({"kind": "depth3", "n": 6000 if tier == "quick" else 200000})
     return specs
@@ -59,7 +59,14 @@ def check(ctx, base, steps, offset, suffix, all_routes=False):
     except rp.RelFail as e:
         want, fail = None, str(e)
     except ValueError:
+        # an offset applied to a last token that is not an array index: the draft does not say what happens, so only
+        # "a pointer comes back or the application is refused with a pointer error" is demanded
         ctx.count("unspecified_skipped")
+        for name, fn in (("rel.to(text)", lambda: RelativeJSONPointer(text).to(base_text)), ("pointer.to(text)", lambda: JSONPointer(base_text).to(text)), ("rel.to(from_parts base)", lambda: RelativeJSONPointer(text).to(JSONPointer.from_parts(list(base))))):
+            o = impl.call(fn)
+            if not o.ok and not isinstance(o.exc, (jsonpath.RelativeJSONPointerError, jsonpath.JSONPointerError)):
+                ctx.violation("application-raised-foreign:%s" % type(o.exc).__name__, case, {"base": base_text, "relative": text, "route": name, "error": o.desc()})
+                return
         return
     ctx.cell("census", "steps=%s offset=%s suffix=%s -> %s" % ("0" if steps == 0 else ("<=depth" if steps <= len(base) else ">depth"), "none" if not offset else ("1digit" if abs(offset) < 10 else "2digit") + ("+" if offset > 0 else "-"), "empty" if suffix == "" else ("#" if suffix == "#" else "pointer"), "error" if fail else "pointer"))
     c = impl.call(RelativeJSONPointer, text)
@@ -177,6 +184,18 @@ def run(spec, ctx):
                     elif not o.ok or str(o.value) != want:
                         ctx.violation("application-yields-wrong-pointer:token-list-base", {"from_parts_index": str(idx), "text": text, "steps": steps}, {"relative": text, "base_tokens": [str(x) for x in pre], "got": o.desc() if not o.ok else str(o.value), "expected": want})
         ctx.count("magnitude_combinations", n)
+    elif spec["kind"] == "digit-lookalikes":
+        # last tokens made of characters str.isdigit()/isdecimal()/isnumeric() accept but that are not array indices
+        n = 0
+        for tok in ("\u00b2", "\u2460", "\u2082\u2083", "2\u00b2", "\u0663", "\uff11", "\u0967\u0968", "\u2167", "\u00bd", "\u4e09", "1e0", "0x1", "1_0", " 1", "+1", "-1", "01", "1 ", "1\n"):
+            for base in ((tok,), ("a", tok), ("a", tok, "c"), (tok, "0")):
+                for steps in range(0, len(base) + 1):
+                    for offset in (0, 1, -1, 12):
+                        for suffix in ("", "#", "/k"):
+                            ctx.case(h("digit-lookalike", base, steps, offset, suffix))
+                            check(ctx, base, steps, offset, suffix)
+                            n += 1
+        ctx.count("digit_lookalike_combinations", n)
     elif spec["kind"] == "flags":
         from rt import flag_history
 
